@@ -14,7 +14,7 @@ def run(pid, path):
     from . import corpus, recorder, tracecheck
     p = corpus.build(d)
     t = recorder.record_call(p["fun"], p["x0"], bounds=p["bounds"], constraints=p["constraints"],
-                             callback=p["callback"], options=p["options"], want=("tr", "interp"),
+                             callback=p["callback"], options=p["options"], constants=p.get("constants"), want=("tr", "interp"),
                              meta=p["meta"])
     per, stats, enc = tracecheck.validate([{"hdr": t["hdr"], "ev": t["ev"]}], f"replay-{pid}")
     mine = sorted(set((c, l) for c, l in per[0]["viol"] if c.startswith(pid)))
